@@ -460,6 +460,24 @@ func (s *sim) opRoundTrip(t *rapid.T) {
 	}
 }
 
+// opTypedNil passes a typed nil pointer of the host's Go type to an accessor. What the runtimes do with a
+// nil message is their business (not judged, panics recovered); the point is that it must not change how
+// real messages of that type are treated afterwards.
+func (s *sim) opTypedNil(t *rapid.T) {
+	e := s.ext()
+	nilMsg := reflect.Zero(reflect.TypeOf(s.m)).Interface()
+	func() {
+		defer func() {
+			if p := recover(); p != nil && rep.IsChoicePanic(p) {
+				panic(p)
+			}
+		}()
+		_ = csproto.HasExtension(nilMsg, e.desc)
+	}()
+	s.w.Step("HasExtension(typed nil %T, %s) (result not judged)", nilMsg, e.name)
+	s.w.Fault("typed_nil_message")
+}
+
 func (s *sim) opMismatch(t *rapid.T) {
 	// a descriptor of a different runtime
 	var foreign []extDef
@@ -513,9 +531,10 @@ func runC12(t *rapid.T, w *rep.Worker) {
 	s := &sim{t: t, w: w, h: h, m: h.new(), model: map[string]string{}}
 	w.Begin("host=" + h.name)
 	w.MixS(h.name)
+	csproto.VerifResetTypeCaches() // every run starts with an empty process-wide type cache
 	t.Repeat(map[string]func(*rapid.T){
 		"set": s.opSet, "set2": s.opSet, "hasget": s.opHasGet, "hasget2": s.opHasGet, "clear": s.opClear, "clearall": s.opClearAll,
-		"range": s.opRange, "number": s.opNumber, "roundtrip": s.opRoundTrip, "mismatch": s.opMismatch,
+		"range": s.opRange, "number": s.opNumber, "typednil": s.opTypedNil, "roundtrip": s.opRoundTrip, "mismatch": s.opMismatch,
 		"": func(t *rapid.T) {
 			w.State(fmt.Sprintf("%s|set=%d", h.runtime, len(s.model)))
 			if sig := w.Pending(); sig != "" {
